@@ -136,6 +136,8 @@ def run_property(pid, tier, seed):
             if kf and ob.kobj.matches_known(kf[0], ob, r):
                 v["known"] = kf[0]
                 out["known"].append(v)
+                # a listed finding is reported on its own line and is not part of the proved set
+                out["obligations"] -= 1
             else:
                 out["violations"].append((v, ob, r))
             continue
@@ -193,7 +195,8 @@ def evidence(out, seed):
         "bounded": out["bounded"],
         "not_decided": prop.get("not_decided", []),
         "known_findings_matched": [{"kernel": v["kernel"], "obligation": v["obligation"],
-                                    "finding": v["known"].get("id")} for v in out["known"]],
+                                    "finding": v["known"].get("id"), "counter_model": v["model"]} for v in out["known"]],
+        "obligations_refuted_as_known_finding": len(out["known"]),
         "undecided": out["undecided"], "gaps": out["gaps"],
         "extract_s": out.get("extract_s"),
         "tree_hash": extract.tree_hash(),
